@@ -46,6 +46,7 @@ structure Meta where
   casRequired : Bool
   dva : Bool            -- key-level delete_version_after set (far future)
   metaVersion : Nat     -- CurrentMetadataVersion
+  custom : Data         -- custom_metadata
 
 structure PathSt where
   md : Option Meta
@@ -69,7 +70,7 @@ inductive Cas where
   deriving DecidableEq, Repr
 
 inductive Err where
-  | casMismatch | casRequired | casParse | noVersions | storage | missingBlob
+  | casMismatch | casRequired | casParse | noVersions | storage | missingBlob | mcasMismatch | mcasNotZero
   deriving DecidableEq, Repr
 
 inductive Resp where
@@ -78,7 +79,7 @@ inductive Resp where
   | data (v : Nat) (d : Data) (del : Del)           -- read
   | gone (v : Nat) (del : Del) (destroyed : Bool)   -- 404 carrying the version metadata (deleted/destroyed)
   | notFound                                        -- bare 404
-  | metaInfo (cur old max : Nat) (casReq dva : Bool) (mv : Nat) (vers : List (Nat × Ver))
+  | metaInfo (cur old max : Nat) (casReq dva : Bool) (mv : Nat) (vers : List (Nat × Ver)) (cm : Data)
   | conf (max : Nat) (casReq : Bool) (dva : CfgDva)
   | warn                                            -- response carrying only a warning
   | err (e : Err)
@@ -94,7 +95,7 @@ def init : State := { cfg := initCfg, paths := fun _ => emptyPath }
 /-- `&KeyMetadata{Key: key, Versions: map[uint64]*VersionMetadata{}}` of pathDataWrite -/
 def freshMeta : Meta :=
   { current := 0, oldest := 0, versions := fun _ => none, maxVersions := 0, casRequired := false, dva := false,
-    metaVersion := 0 }
+    metaVersion := 0, custom := [] }
 
 def setVer (m : Meta) (w : Nat) (vm : Ver) : Meta :=
   { m with versions := fun x => if x = w then some vm else m.versions x }
@@ -302,23 +303,86 @@ def destroyVersions (ps : PathSt) (vs : List Int) : PathSt :=
     { md := some (vs.foldl markDestroyed m),
       blobs := fun x => if vs.any (fun v => uint64 v = x) then none else ps.blobs x }
 
-/-- pathMetadataWrite restricted to max_versions / cas_required / delete_version_after (0 or far future) -/
-def metaWrite (cfg : Config) (ps : PathSt) (mx : Option Int) (cr : Option Bool) (dva : Option Bool) : PathSt × Resp :=
-  if mx.isNone ∧ cr.isNone ∧ dva.isNone then (ps, .nil) else
-  let resp := if cr = some false ∧ cfg.casRequired then Resp.warn else Resp.nil
-  let m : Meta := match ps.md with
-    | none => { freshMeta with metaVersion := 1 }
-    | some m => { m with metaVersion := m.metaVersion + 1 }
-  let m := match mx with
-    | some n => { m with maxVersions := uint32 n }
-    | none => m
-  let m := match cr with
-    | some c => { m with casRequired := c }
-    | none => m
-  let m := match dva with
-    | some d => { m with dva := d }
-    | none => m
-  ({ ps with md := some m }, resp)
+/-- arguments of a metadata PUT: max_versions, cas_required, delete_version_after (0 / far future), custom_metadata
+    (replaces the map), metadata_cas -/
+structure MetaPut where
+  mx : Option Int
+  cr : Option Bool
+  dva : Option Bool
+  cm : Option Data
+  mcas : Option Int
+  deriving Repr
+
+/-- arguments of a metadata PATCH (JSON merge patch): custom_metadata is merged, `none` values remove keys -/
+structure MetaPatchArgs where
+  mx : Option Int
+  cr : Option Bool
+  dva : Option Bool
+  cm : Option PatchData
+  mcas : Option Int
+  deriving Repr
+
+/-- the metadata_cas check: a supplied value must equal the current metadata version -/
+def mcasFails (mcas : Option Int) (v : Nat) : Bool :=
+  match mcas with
+  | some c => uint64 c != v
+  | none => false
+
+def putSettings (m : Meta) (a : MetaPut) : Meta :=
+  { m with
+    maxVersions := match a.mx with
+      | some n => uint32 n
+      | none => m.maxVersions
+    casRequired := match a.cr with
+      | some c => c
+      | none => m.casRequired
+    dva := match a.dva with
+      | some d => d
+      | none => m.dva
+    custom := match a.cm with
+      | some d => d
+      | none => m.custom }
+
+/-- pathMetadataWrite (max_versions / cas_required / delete_version_after 0 or far future / custom_metadata /
+    metadata_cas; the metadata_cas_required switches are not driven).  Creates the key metadata when absent. -/
+def metaWrite (cfg : Config) (ps : PathSt) (a : MetaPut) : PathSt × Resp :=
+  if a.mx.isNone ∧ a.cr.isNone ∧ a.dva.isNone ∧ a.cm.isNone then (ps, .nil) else
+  let resp := if a.cr = some false ∧ cfg.casRequired then Resp.warn else Resp.nil
+  match ps.md with
+  | none =>
+    if mcasFails a.mcas 0 then (ps, .err .mcasNotZero)
+    else ({ ps with md := some (putSettings { freshMeta with metaVersion := 1 } a) }, resp)
+  | some m =>
+    if mcasFails a.mcas m.metaVersion then (ps, .err .mcasMismatch)
+    else ({ ps with md := some (putSettings { m with metaVersion := m.metaVersion + 1 } a) }, resp)
+
+/-- what the JSON merge patch of pathMetadataPatch does to the settings: numbers and booleans are replaced; the
+    delete_version_after object `{seconds: n}` is merged into the existing object, so a zero duration (`{}`) leaves an
+    existing setting in place; custom_metadata is merged key by key -/
+def patchSettings (m : Meta) (a : MetaPatchArgs) : Meta :=
+  { m with
+    maxVersions := match a.mx with
+      | some n => uint32 n
+      | none => m.maxVersions
+    casRequired := match a.cr with
+      | some c => c
+      | none => m.casRequired
+    dva := match a.dva with
+      | some true => true
+      | _ => m.dva
+    custom := match a.cm with
+      | some pd => mergePatch m.custom pd
+      | none => m.custom }
+
+/-- pathMetadataPatch: the key must exist; [BeginTx] Get metadata, metadata_cas check, merge, Put [Commit] -/
+def metaPatch (cfg : Config) (ps : PathSt) (a : MetaPatchArgs) : PathSt × Resp :=
+  if a.mx.isNone ∧ a.cr.isNone ∧ a.dva.isNone ∧ a.cm.isNone then (ps, .nil) else
+  match ps.md with
+  | none => (ps, .notFound)
+  | some m =>
+    if mcasFails a.mcas m.metaVersion then (ps, .err .mcasMismatch)
+    else ({ ps with md := some (patchSettings { m with metaVersion := m.metaVersion + 1 } a) },
+          if a.cr = some false ∧ cfg.casRequired then Resp.warn else Resp.nil)
 
 /-- versions listed by a metadata read: every key of the map (all keys are ≤ current) in ascending order -/
 def listVersions (m : Meta) : List (Nat × Ver) :=
@@ -327,7 +391,7 @@ def listVersions (m : Meta) : List (Nat × Ver) :=
 def metaRead (ps : PathSt) : Resp :=
   match ps.md with
   | none => .nil
-  | some m => .metaInfo m.current m.oldest m.maxVersions m.casRequired m.dva m.metaVersion (listVersions m)
+  | some m => .metaInfo m.current m.oldest m.maxVersions m.casRequired m.dva m.metaVersion (listVersions m) m.custom
 
 /-- pathMetadataDelete: delete the blob of every version in the metadata, then the metadata entry -/
 def metaDelete (ps : PathSt) : PathSt :=
@@ -362,7 +426,8 @@ inductive Op where
   | deleteV (p : String) (vs : List Int)
   | undelete (p : String) (vs : List Int)
   | destroy (p : String) (vs : List Int)
-  | metaWrite (p : String) (mx : Option Int) (cr : Option Bool) (dva : Option Bool)
+  | metaWrite (p : String) (a : MetaPut)
+  | metaPatch (p : String) (a : MetaPatchArgs)
   | metaRead (p : String)
   | metaDelete (p : String)
   | confWrite (mx : Option Int) (cr : Option Bool) (dva : Option DvaArg)
@@ -388,8 +453,11 @@ def stepF (tx : Bool) (fault : Option Nat) (s : State) : Op → State × Resp ×
     if vs.isEmpty then (s, .err .noVersions, false) else (setPath s p (undeleteVersions s.cfg (s.paths p) vs), .nil, false)
   | .destroy p vs =>
     if vs.isEmpty then (s, .err .noVersions, false) else (setPath s p (destroyVersions (s.paths p) vs), .nil, false)
-  | .metaWrite p mx cr dva =>
-    let (ps, r) := metaWrite s.cfg (s.paths p) mx cr dva
+  | .metaWrite p a =>
+    let (ps, r) := metaWrite s.cfg (s.paths p) a
+    (setPath s p ps, r, false)
+  | .metaPatch p a =>
+    let (ps, r) := metaPatch s.cfg (s.paths p) a
     (setPath s p ps, r, false)
   | .metaRead p => (s, metaRead (s.paths p), false)
   | .metaDelete p => (setPath s p (metaDelete (s.paths p)), .nil, false)
@@ -418,7 +486,7 @@ def run (s : State) : List Ev → State
 /-- the path an operation addresses (config operations address none) -/
 def Op.path? : Op → Option String
   | .write p _ _ | .patch p _ _ | .read p _ | .delete p | .deleteV p _ | .undelete p _ | .destroy p _
-  | .metaWrite p _ _ _ | .metaRead p | .metaDelete p => some p
+  | .metaWrite p _ | .metaPatch p _ | .metaRead p | .metaDelete p => some p
   | .confWrite _ _ _ | .confRead => none
 
 /-! ### Concurrency (DESIGN section 4): per-key lock, handler body at storage-operation granularity.
